@@ -18,6 +18,14 @@ CLAIMS = {
         declined="linearizability of N registering threads against M requesters as a property of all schedules; fused_stop_source/adapter forwarding beyond "
                  "the pairing rules shared with C04.",
         technique="lock-held dataflow + dominance/must-pass path rules + memory-order role table over clang CFGs (libTooling)"),
+    'C12': dict(
+        decided="(AST half) every receiver class that is connected to a child operation (>= 2 of set_value/set_error/set_done; 71 classes) has the generic "
+                "query-forwarding tag_invoke(CPO, const receiver&) overload and its body invokes the CPO on the outer receiver (reached through a "
+                "Receiver-typed field or a getter returning one); classes without one must be in a 20-row exemption table whose reasons are the property's own "
+                "(root receivers, children that outlive the receiver, type-erased wrappers with a declared query set).",
+        declined="the value returned by a forwarded query when an adaptor could substitute a different object of the same type; allocator symmetry of "
+                 "allocate()/spawn (not yet armed).",
+        technique="custom AST/CFG query over all receiver classes (libTooling facts) with a reasoned exemption table"),
 }
 
 
